@@ -5,7 +5,6 @@ import (
 	"encoding/json"
 	"fmt"
 	"reflect"
-	"strings"
 	"testing"
 
 	"github.com/ava-labs/hypersdk/abi"
@@ -166,8 +165,6 @@ func TestVerifC29Morpheus(t *testing.T) {
 			// the property also asks for the encoding direction of registered output types
 			db, derr := dynamic.Marshal(a, name, string(vjs))
 			switch {
-			case derr != nil && strings.HasPrefix(derr.Error(), "action ") && strings.Contains(derr.Error(), "not found in ABI"):
-				vs = append(vs, viol{"dynamic-marshal-output-type-not-found", fmt.Sprintf("registered output type %s: %v", name, derr)})
 			case derr != nil:
 				vs = append(vs, viol{"dynamic-error-on-registered-type", fmt.Sprintf("%s: %v", name, derr)})
 			case !bytes.Equal(db, native):
